@@ -117,12 +117,15 @@ def _key_model(k):
     raise NotSerialisable('key:' + type(k).__name__)
 
 
-def json_model(x, default=None, hook=None, tolerant_log=None):
-    """Value obtained from json.loads(json.dumps(x, default=default), object_hook=hook)."""
+def json_model(x, default=None, hook=None, tolerant_log=None, leaf=None):
+    """Value obtained from json.loads(json.dumps(x, default=default), object_hook=hook).
+    leaf (symtorch runs, chk/c17_resume.py): applied to every float that crosses the file."""
+    if leaf is not None and isinstance(x, float):
+        return leaf(x)
     if x is None or isinstance(x, (bool, int, float, str)):
         return x
     if isinstance(x, (list, tuple)):
-        return [json_model(v, default, hook, tolerant_log) for v in x]
+        return [json_model(v, default, hook, tolerant_log, leaf) for v in x]
     if isinstance(x, dict):
         if tolerant_log is not None:
             out = Tolerant()
@@ -130,7 +133,7 @@ def json_model(x, default=None, hook=None, tolerant_log=None):
         else:
             out = {}
         for k, v in x.items():
-            out[_key_model(k)] = json_model(v, default, hook, tolerant_log)
+            out[_key_model(k)] = json_model(v, default, hook, tolerant_log, leaf)
         if hook is not None:
             return hook(out)
         return out
@@ -143,7 +146,7 @@ def json_model(x, default=None, hook=None, tolerant_log=None):
                 y = default(x)
         except TypeError:
             raise NotSerialisable(type(x).__name__)
-        return json_model(y, default, hook, tolerant_log)
+        return json_model(y, default, hook, tolerant_log, leaf)
     raise NotSerialisable(type(x).__name__)
 
 
@@ -345,7 +348,9 @@ def mk_optimizer(algo=0, sched=0, warm=0, conv=False):
 def _mk_optimizer(algo, sched, warm, conv):
     p1 = Parameter('q1', torch.tensor([1.0, 2.0], dtype=torch.float64, requires_grad=True))
     p2 = Parameter('q2', torch.tensor([0.5], dtype=torch.float32, requires_grad=True))
-    ts = [p1.tensor, p2.tensor]
+    # two param groups, the second with its own learning rate (the form Optimizer.from_json builds for
+    # "parameters": [{"params": [...]}, {"params": [...], "lr": ...}])
+    ts = [{'params': [p1.tensor]}, {'params': [p2.tensor], 'lr': 0.05}]
     if algo == 0:
         o = torch.optim.SGD(ts, lr=0.1, momentum=0.9)
     elif algo == 1:
@@ -821,7 +826,10 @@ def case_optimizer(algo, args, real=False, skip=(), first=True):
     epoch, sched, warm, conv, f, last_epoch, step_count = args
     a, b = mk_optimizer(algo, sched, warm, conv), mk_optimizer(algo, sched, 0, conv)
     a._epoch = epoch
-    a.optimizer.param_groups[0]['lr'] = 0.046875  # concrete: it is read by torch's own load_state_dict (untraced)
+    # concrete (read by torch's own load_state_dict, untraced): EVERY numeric hyper-parameter of every param group has
+    # moved away from the specification, as schedulers (lr; OneCycleLR / CyclicLR also momentum / betas) make them
+    with untraced():
+        _perturb_groups(a.optimizer)
     if a.scheduler is not None:
         a.scheduler.scheduler.last_epoch = last_epoch
         a.scheduler.scheduler._step_count = step_count
@@ -830,6 +838,19 @@ def case_optimizer(algo, args, real=False, skip=(), first=True):
         a.convergence.elbo = f + 1.0
         a.convergence.elbo_diff.append(0.125)
     return roundtrip(a, b, real, skip, first, extra_items=_optimizer_items)
+
+
+def _perturb_groups(o):
+    for gi, g in enumerate(o.param_groups):
+        for k, v in list(g.items()):
+            if k == 'params' or isinstance(v, bool) or v is None:
+                continue
+            if k == 'lr':
+                g[k] = 0.046875 + 0.015625 * gi
+            elif isinstance(v, (int, float)):
+                g[k] = float(v) * 0.5 + 0.015625 * (gi + 1)
+            elif isinstance(v, tuple) and all(isinstance(x, float) for x in v):
+                g[k] = tuple(x * 0.5 + 0.015625 * (gi + 1) for x in v)
 
 
 # ---- tensor / parameter codec --------------------------------------------------------------------------------
@@ -994,6 +1015,7 @@ def _opt_case(algo):
 
 for _i, _n in enumerate(ALGOS):
     CASES[f'Optimizer[{_n}]'] = _opt_case(_i)
+CASES['Optimizer[Adam,quick]'] = _opt_case(1)  # quick-tier slice (no scheduler / StepLR / LambdaLR, 2 warm-up steps)
 
 
 def first_problem(case, args):
